@@ -93,7 +93,7 @@ macro_rules! vec_level {
                         pv::matrix_expand(&mut m, bytes(&a[0]));
                         vec![Out::Ints(m.iter().flat_map(|r| r.vec.iter().flat_map(|p| p.coeffs.iter().map(|x| *x as i128))).collect())]
                     }
-                    "matrix_pointwise" => {
+                    "matrix_pointwise" | "matrix_pointwise_dirty" => {
                         let v = i32s(&a[0])?;
                         if v.len() != K * L * 256 {
                             return None;
@@ -106,13 +106,15 @@ macro_rules! vec_level {
                             }
                         }
                         let vv = vecl(&a[1])?;
-                        let mut t = pv::Polyveck::default();
+                        // _dirty: the output vector holds arbitrary old values on entry (a reused work buffer)
+                        let mut t = if f == "matrix_pointwise_dirty" { veck(&a[2])? } else { pv::Polyveck::default() };
                         pv::matrix_pointwise_montgomery(&mut t, &m, &vv);
                         vec![ok(&t)]
                     }
-                    "l_pointwise_acc" => {
+                    "l_pointwise_acc" | "l_pointwise_acc_dirty" => {
                         let (u, v) = (vecl(&a[0])?, vecl(&a[1])?);
                         let mut w = Poly::default();
+                        if f == "l_pointwise_acc_dirty" { w.coeffs.copy_from_slice(&i32s(&a[2])?[..256]); }
                         pv::l_pointwise_acc_montgomery(&mut w, &u, &v);
                         vec![opoly(&w)]
                     }
